@@ -46,3 +46,11 @@ check(
     "Trusted: TLC, Json, argslib. Formats <= 1 command name, <= 2 arguments, <= 2 options. The exact error class for arbitrary soup is an A-clause (DRIFT), only membership in the documented set is a P-clause; single-fault mutations with a fixed expected class are validated in the thorough tier.",
     "DESIGN.md#C02",
 )
+check(
+    "C18",
+    ["Dialogue", "DialogueTrace"],
+    "TLA+ model of Question/ChoiceQuestion/ConfirmationQuestion dialogues (A: ask -> prompt -> read -> validate -> retry; P: operators over observations) checked by TLC incl. Termination under weak fairness; every TLC dialogue replayed on the real classes under a read/write budget; random multi-question sessions decided by DialogueTrace.tla",
+    "TLC enumerates every dialogue of the bounded family (choice lists <= 2-3 entries incl. numeric-looking/spaced/case-differing ones, single/multi-select, defaults, attempt limits {unlimited,1,2,3}, scripts <= 2-3 lines over an adversarial answer alphabet, each ending in end-of-input; plain questions with validator; confirmations over 3 patterns x 14 answers; non-interactive) and checks the P-invariants plus Termination (liveness, weak fairness, no state constraint); a deliberately broken variant (RetryOnAbort) must produce the lasso, which guards against a vacuous liveness check; the real classes reproduce each of the 86 892 (quick) / 1.46 M (thorough) behaviours; 2 500 / 40 000 random sessions of 1-4 questions on one input are decided by TLC on the observed outcome, read count, error lines and stream bytes.",
+    "Trusted: TLC, Json, the BudgetIn/BudgetOut wrappers (BaseException budgets), observation projection. stty/hidden/autocomplete path not exercised (subprocess stubbed); attempt limit 0 and non-ASCII answers outside. 'one error' = one stderr line in the error style per rejected entry.",
+    "DESIGN.md#C18",
+)
